@@ -21,8 +21,16 @@ Interfaces:
 Implementation: Simple text extraction and pattern matching
 """
 
+from functools import lru_cache
+
 from src.core.base import BaseLintContext
 from src.core.types import Violation
+
+
+@lru_cache(maxsize=8)
+def _split_lines(content: str) -> list[str]:
+    """Lines of a file; cached because every violation of a file asks for them (read only)."""
+    return content.splitlines()
 
 
 def get_violation_line(violation: Violation, context: BaseLintContext) -> str | None:
@@ -38,7 +46,7 @@ def get_violation_line(violation: Violation, context: BaseLintContext) -> str | 
     if not context.file_content:
         return None
 
-    lines = context.file_content.splitlines()
+    lines = _split_lines(context.file_content)
     if violation.line <= 0 or violation.line > len(lines):
         return None
 
